@@ -24,7 +24,8 @@ RULE = ('family = one generated indexable pipeline (source, 1-3 stages from map 
         'Non-trivial = a fault fired; distinct = distinct (pipeline, fault plan, mode).')
 PROBES = ['second_pass_differs_from_first', 'foreign_exception_propagated', 'caught_at_first_position',
           'caught_at_last_position', 'several_positions_dropped', 'subclass_caught',
-          'items_iteration_with_drop', 'cache_below_catch_second_pass']
+          'items_iteration_with_drop', 'cache_below_catch_second_pass',
+          'survivors_equal_the_abstract_model']
 BUDGET = {
     'quick': {'families': 20000, 'wall_cap': 420, 'shrink_s': 10},
     'thorough': {'families': 200000, 'wall_cap': 5400, 'shrink_s': 30},
@@ -266,6 +267,7 @@ def run(case):
         ctx.armed = True
         runs = []
         raised_in_pass = []
+        raised_ids_in_pass = []
         for rep in range(2):
             ctx.pass_index = rep
             mark = len(ctx.log)
@@ -287,6 +289,7 @@ def run(case):
                 same = any(e is r for r in ctx.raised)
             runs.append((out, term, same))
             raised_in_pass.append([e[5] for e in ctx.log[mark:] if e[2] == 'raise'])
+            raised_ids_in_pass.append({i_ for e in ctx.log[mark:] if e[2] == 'raise' for i_ in e[4]})
         fired = dict(ctx.fired)
         W.set_ctx(None)
     tag = 'items' if case['items'] else 'values'
@@ -303,6 +306,34 @@ def run(case):
                 'iteration %d: only exceptions of selected types were raised (%s), yet the '
                 'iteration ended with %s' % (rep, sorted(set(kinds_)), term)))
             break
+        # also independent of the reference: with only selected types raised, what is
+        # delivered are exactly the elements of the pipeline description (abstract
+        # interpreter) that contain no source example whose evaluation raised
+        if caught and term in (None, ('stopped',)) and \
+                all(issubclass(W.EXC_KINDS[k_], caught) for k_ in kinds_):
+            shuffled = desc['stages'][-1]['op'] == 'reshuffle'
+            am = pargen.abs_eval({'source': desc['source'],
+                                  'stages': desc['stages'][:-1] if shuffled else desc['stages']})
+            if am is not None and am.elems is not None:
+                model = [tuple(sorted(e_)) for e_ in am.elems
+                         if not (set(e_) & raised_ids_in_pass[rep])]
+                got_ids = [tuple(sorted(W.src_ids(x_))) for x_ in out]
+                if shuffled:
+                    bad_ = term is None and sorted(got_ids) != sorted(model)
+                elif term == ('stopped',):
+                    # (examples beyond the stop point were never evaluated: the
+                    # delivered ones are a prefix of the model without them)
+                    bad_ = got_ids != [m_ for m_ in model][:len(got_ids)]
+                else:
+                    bad_ = got_ids != model
+                if bad_:
+                    violations.append(hist.viol(
+                        'delivered_differs_from_model', 'delivered_differs_from_model:%s' % tag,
+                        'iteration %d delivered the source examples %s; the pipeline description '
+                        'without the examples whose evaluation raised (%s) yields %s'
+                        % (rep, got_ids[:8], sorted(raised_ids_in_pass[rep]), model[:8])))
+                    break
+                probes['survivors_equal_the_abstract_model'] = 1
         expected, terminal, dropped = per_pass[rep]
         exp_out, exp_term = expected, terminal
         if term == ('stopped',):
